@@ -188,3 +188,39 @@ class GoalReached(Contract):
             yield ("success <=> some trajectory state reaches the goal", B(ok) == disj(rs))
             yield ("on success the index is that of a reaching state; otherwise -1",
                    z3.If(B(ok), disj(z3.And(T(idx) == i, r) for i, r in enumerate(rs)), T(idx) == -1))
+
+
+@register
+class GoalReachedTwoGoalStates(Contract):
+    """two goal states with independent symbolic time windows (the first may start later than the second)"""
+    prop = "C08"
+    target = "commonroad.planning.planning_problem.PlanningProblem.goal_reached"
+    case = "two goal states with different time windows"
+    unroll = UNROLL
+    describe = "(True, i) => state i reaches SOME goal state; (False, -1) <=> no trajectory state reaches any goal state, whatever the order of the goal states"
+
+    def build(self, F):
+        g1, spec1 = mk_goal_state(F, "Circle", False, True, p="g1_")
+        g2, spec2 = mk_goal_state(F, "Circle", False, False, p="g2_")
+        region = F.new(GoalRegion, [g1, g2])
+        init = F.new(st.InitialState, time_step=0, position=F.array([0.0, 0.0]), orientation=0.0, velocity=0.0, yaw_rate=0.0, slip_angle=0.0)
+        pp = F.new(PlanningProblem, 1, init, region)
+        states, infos, arrs = [], [], []
+        t0 = F.int("t0")
+        for i in range(2):
+            s, info, arr = mk_query_state(F, st.KSState, p="s%d_" % i)
+            F.assume(T(info["t"]) == T(t0) + i)
+            states.append(s)
+            infos.append(info)
+            arrs.append(arr)
+        traj = F.new(Trajectory, t0, states)
+        return {"specs": (spec1, spec2), "infos": infos, "arrs": arrs, "args": [pp, traj]}
+
+    def post(self, F, inp, out):
+        yield ("raises nothing", out.exc is None)
+        if out.exc is None:
+            ok, idx = F.items(out.value)
+            rs = [z3.Or(reach(F, inp["specs"][0], info, arr), reach(F, inp["specs"][1], info, arr)) for info, arr in zip(inp["infos"], inp["arrs"])]
+            yield ("success <=> some trajectory state reaches some goal state", B(ok) == disj(rs))
+            yield ("on success the index is that of a reaching state; otherwise -1",
+                   z3.If(B(ok), disj(z3.And(T(idx) == i, r) for i, r in enumerate(rs)), T(idx) == -1))
